@@ -10,6 +10,22 @@ DIRS = ["p", "i1", "i2", "p/sub"]
 
 
 def gen_case(rng, k):
+    if k % 5 == 2:
+        # the same name in the main file's directory and in -I directories, with the main file's
+        # own directory named by -I as well, before or after the others: first match in
+        # command-line order, the implicit main directory last
+        nm = rng.choice(NAMES)
+        dirs = rng.sample(["i1", "i2", "p/sub"], rng.randint(1, 2))
+        files = {"p/main.idl": {"includes": [nm], "garbage": False}, "p/" + nm: {"includes": [], "garbage": False}}
+        for d in dirs:
+            files["%s/%s" % (d, nm)] = {"includes": [], "garbage": False}
+        other = rng.choice([x for x in NAMES if x != nm])
+        files["%s/%s" % (rng.choice(dirs), other)] = {"includes": [], "garbage": False}
+        files["p/main.idl"]["includes"].append(other)
+        idirs = dirs + (["p"] if rng.random() < 0.8 else [])
+        rng.shuffle(idirs)
+        spell = [rng.choice(["canon", "dotdot", "dot", "symlink", "trailing"]) for _ in idirs]
+        return {"files": files, "idirs": idirs, "spell": spell}
     files = {}            # rel path -> {"includes": [...], "garbage": bool}
     nfiles = rng.randint(2, 8)
     files["p/main.idl"] = {"includes": [], "garbage": False}
@@ -63,8 +79,31 @@ def gen_case(rng, k):
     if rng.random() < 0.08:
         files[rng.choice(rels)]["garbage"] = True
     idirs = [d for d in ["i1", "i2", "p/sub"] if rng.random() < 0.6]
+    if rng.random() < 0.35:
+        idirs.append("p")          # the main file's own directory named with -I as well (any position)
     rng.shuffle(idirs)
-    return {"files": files, "idirs": idirs}
+    # how each -I directory is spelled on the command line (the model sees the canonical directory)
+    spell = [rng.choice(["canon", "canon", "dotdot", "dot", "symlink", "trailing"]) for _ in idirs]
+    return {"files": files, "idirs": idirs, "spell": spell}
+
+
+def spelled(root, d, how):
+    """a command-line spelling of directory root/d"""
+    canon = os.path.join(root, d)
+    if how == "dotdot":
+        first = d.split("/")[0]
+        other = "i2" if first != "i2" else "i1"
+        return os.path.join(root, other, "..", d)
+    if how == "dot":
+        return os.path.join(root, ".", d, ".")
+    if how == "trailing":
+        return canon + "/"
+    if how == "symlink":
+        ln = os.path.join(root, "ln_" + d.replace("/", "_"))
+        if not os.path.lexists(ln):
+            os.symlink(canon, ln)
+        return ln
+    return canon
 
 
 def materialize(case, root):
@@ -114,18 +153,44 @@ def run(ctx):
         root = os.path.realpath(os.path.join(work, "cases", str(k)))
         wf = materialize(c, root)
         idirs = [os.path.join(root, d) for d in c["idirs"]]
-        worlds.append((wf, idirs, os.path.join(root, "p/main.idl")))
-        lines.append("%d\tcli\t-\t%s\t%s" % (k, os.path.join(root, "p/main.idl"), ":".join(idirs)))
+        sp = [spelled(root, d, how) for d, how in zip(c["idirs"], c.get("spell") or ["canon"] * len(c["idirs"]))]
+        worlds.append((wf, idirs, os.path.join(root, "p/main.idl"), sp))
+        lines.append("%d\tcli\t-\t%s\t%s" % (k, os.path.join(root, "p/main.idl"), ":".join(sp)))
     cf = os.path.join(work, "cases.txt")
     open(cf, "w").write("\n".join(lines) + "\n")
     rc, out, err = vlib.run([ctx["harness"], "front", cf], timeout=900)
     hres = vlib.parse_harness(out)
 
     def binrun(k):
-        wf, idirs, main = worlds[k]
+        wf, idirs, main, sp = worlds[k]
         t0 = time.time()
-        r = scrape.idlc_run(ctx["idlc"], main, os.path.join(os.path.dirname(os.path.dirname(main)), "out.h"), "c", False, idirs=idirs, timeout=60)
-        return k, (r[0], time.time() - t0)
+        r = scrape.idlc_run(ctx["idlc"], main, os.path.join(os.path.dirname(os.path.dirname(main)), "out.h"), "c", False, idirs=sp, timeout=60)
+        dt = time.time() - t0
+        # which files' declarations does the BINARY see?  A second main file with the same includes
+        # uses the struct of every file the replayed pipeline loaded (must be accepted) and, in a
+        # third one, the struct of a same-named file that was not loaded (must be rejected).
+        use = None
+        h = hres.get(str(k))
+        if h and h["result"] == "ok":
+            loaded = re.findall(r'\(mkAst "([^"]+)"', h.get("files", ""))
+            root = os.path.dirname(os.path.dirname(main))
+            def tag(pth):
+                return "S_" + re.sub(r"\W", "_", os.path.relpath(pth, root))
+            incs = "".join(l for l in open(main).read().split("\n") if l.startswith("include") for l in [l + "\n"])
+            others = [pth for pth in loaded if os.path.realpath(pth) != os.path.realpath(main)]
+            pos = os.path.join(os.path.dirname(main), "main_use.idl")
+            open(pos, "w").write(incs + "interface IUse {\n" + "".join("  method u%d(in %s x);\n" % (j, tag(pth)) for j, pth in enumerate(others)) + "  method z();\n};\n")
+            rp = scrape.idlc_run(ctx["idlc"], pos, os.path.join(root, "use.h"), "c", False, idirs=sp, timeout=60)
+            use = {"sees_loaded": rp[0] == 0, "diag": rp[2][-300:] if rp[0] != 0 else ""}
+            lset = {os.path.realpath(pth) for pth in loaded}
+            shadows = [pth for pth, _ in wf if os.path.realpath(pth) not in lset and any(os.path.basename(pth) == os.path.basename(q) for q in loaded)]
+            if shadows:
+                neg = os.path.join(os.path.dirname(main), "main_neg.idl")
+                open(neg, "w").write(incs + "interface INeg {\n  method n(in %s x);\n};\n" % tag(shadows[0]))
+                rn = scrape.idlc_run(ctx["idlc"], neg, os.path.join(root, "neg.h"), "c", False, idirs=sp, timeout=60)
+                use["sees_unloaded"] = rn[0] == 0
+                use["unloaded"] = shadows[0]
+        return k, (r[0], dt, use)
 
     with ThreadPoolExecutor(max_workers=vlib.NCPU) as ex:
         bins = dict(ex.map(binrun, range(len(cases))))
@@ -136,7 +201,7 @@ def run(ctx):
             continue
         ok = h["result"] == "ok"
         loaded = re.findall(r'\(mkAst "([^"]+)"', h.get("files", "")) if ok else []
-        wf, idirs, main = worlds[k]
+        wf, idirs, main, sp = worlds[k]
         d = "Definition w_%d : world := %s.\nDefinition l_%d : list path := [%s].\n" % (
             k, gworld(wf, idirs, main), k, "; ".join(gpath(p) for p in loaded))
         defs.append((k, d, "chk_c12 w_%d %s l_%d" % (k, "true" if ok else "false", k)))
@@ -162,7 +227,12 @@ def run(ctx):
         if b and (b[0] == 0) != (hres[str(k)]["result"] == "ok"):
             res["corr_broken"].append({"kind": "correspondence", "detail": "idlc exit status %s disagrees with the replayed pipeline on case %d" % (b[0], k), "case": payload})
         if b and (b[0] in (-9, 139, 134, -11, -6) or b[1] > 20):
-            res["failures"].append(dict(payload, what="the compiler looped, crashed or ran out of stack (exit %s, %.1fs)" % b))
+            res["failures"].append(dict(payload, what="the compiler looped, crashed or ran out of stack (exit %s, %.1fs)" % b[:2]))
+        if b and b[2]:
+            if not b[2]["sees_loaded"]:
+                res["failures"].append(dict(payload, what="the binary does not see the declarations of every file that the resolution rule selects (%s)" % b[2]["diag"][-160:]))
+            if b[2].get("sees_unloaded"):
+                res["failures"].append(dict(payload, what="the binary sees the declarations of %s, a same-named file that the resolution rule does not select" % b[2]["unloaded"]))
         hh = hashlib.sha256(json.dumps(c, sort_keys=True).encode()).hexdigest()
         if hh not in seen and sum(len(f["includes"]) for f in c["files"].values()) >= 2:
             seen.add(hh); distinct += 1
